@@ -12,7 +12,16 @@ demo() {
     cc -O1 -I"$R/src/liblzma/api" "$D"/demo.c "$R/_b/liblzma.a" -lpthread -o "$W/demo" 2>&1 | tail -3 || return 99
     (cd "$W" && timeout 300 ./demo >"$W/demo.out" 2>&1); rc=$?
   elif [ -f "$D/demo.sh" ]; then
-    (cd "$W" && WORKTREE="$R" BUILD="$R/_b" timeout 600 sh "$D/demo.sh" "$R" >"$W/demo.out" 2>&1); rc=$?
+    # demo scripts take the worktree, the build directory or the xz binary as their argument: use the first form
+    # that works on HEAD for the patched run too
+    if [ -z "$DEMOARG" ]; then
+      for a in "$R" "$R/_b" "$R/_b/xz"; do
+        (cd "$W" && WORKTREE="$R" BUILD="$R/_b" timeout 900 sh "$D/demo.sh" "$a" >"$W/demo.out" 2>&1); rc=$?
+        if [ $rc = 0 ]; then DEMOARG=$a; break; fi
+      done
+    else
+      (cd "$W" && WORKTREE="$R" BUILD="$R/_b" timeout 900 sh "$D/demo.sh" "$DEMOARG" >"$W/demo.out" 2>&1); rc=$?
+    fi
   else echo "no demo"; rc=98; fi
   tail -2 "$W/demo.out" | cut -c1-200; return $rc
 }
